@@ -231,3 +231,38 @@ theorem add_valid {kvs : AMap Node} (name : String) {v : Node} (h : (Node.cont k
       exact get?_valid h hn
 
 end Ytk
+
+namespace Ytk
+
+theorem walkIdx_valid : ∀ (is : List Nat) (cur : Option Node) (n : Node), (∀ m, cur = some m → m.Valid) →
+    walkIdx cur is = some n → n.Valid
+  | [], cur, n, hc, h => by
+    cases cur with
+    | none => simp [walkIdx] at h
+    | some m => simp [walkIdx] at h; subst h; exact hc m rfl
+  | i :: is, cur, n, hc, h => by
+    cases cur with
+    | none => simp [walkIdx] at h
+    | some m =>
+      cases m with
+      | leaf _ => simp [walkIdx] at h
+      | cont _ => simp [walkIdx] at h
+      | list xs =>
+        simp only [walkIdx] at h
+        apply walkIdx_valid is _ n _ h
+        intro m hm
+        exact (hc _ rfl).of_list_mem (List.mem_of_getElem? hm)
+
+theorem child_valid {kvs : AMap Node} (h : (Node.cont kvs).Valid) {name : String} {n : Node}
+    (hc : child kvs name = some n) : n.Valid := by
+  unfold child at hc
+  cases hp : parseSeg name with
+  | mk b is =>
+    rw [hp] at hc
+    cases is with
+    | nil => exact get?_valid h hc
+    | cons i is =>
+      simp only at hc
+      exact walkIdx_valid _ _ n (fun m hm => get?_valid h hm) hc
+
+end Ytk
